@@ -93,6 +93,22 @@ func pkgConst(p *Prog, pkgPath, name string) (int64, bool) {
 // wantFields, and that `at` is only reached on the ok edge. Returns "" when fine, else the reason.
 func poolProvenance(p *Prog, v ssa.Value, at ssa.Instruction, wantFields []string) string {
 	v = stripChange(v)
+	// a pool handed back by a helper that was spliced in place arrives merged with the nil of its error exit
+	if _, isPhi := v.(*ssa.Phi); isPhi {
+		var only ssa.Value
+		n := 0
+		for _, lf := range phiLeaves(v, 3) {
+			lf = stripChange(lf)
+			if k, ok := lf.(*ssa.Const); ok && k.IsNil() {
+				continue
+			}
+			only = lf
+			n++
+		}
+		if n == 1 {
+			v = only
+		}
+	}
 	call, ok := v.(*ssa.Call)
 	if !ok || calleeName(&call.Call) != "crypto/x509.NewCertPool" {
 		return "the pool is not a fresh x509.NewCertPool() of this function (system roots or a foreign pool would be trusted)"
@@ -406,7 +422,7 @@ func runC18(p *Prog, r *Report, tier string) {
 
 // encryptionEdge: is block b dominated by an edge that decides the guard field? returns (encryptionOn, decided).
 func encryptionEdge(b *ssa.BasicBlock, field string) (bool, bool) {
-	for _, g := range guardsOf(b) {
+	for _, g := range guardsOfInter(b) {
 		cond := g.If.Cond
 		pol := g.Succ == 0
 		if u, ok := cond.(*ssa.UnOp); ok && u.Op == token.NOT {
